@@ -340,6 +340,16 @@ impl<'p> ThunkData<'p> {
         *state = ThunkState::Done(value);
     }
 
+    /// Puts back the pending computation of a thunk whose evaluation was
+    /// started but did not finish (because evaluation failed).
+    #[inline]
+    pub(super) fn restore_pending(&self, pending: PendingThunk<'p>) {
+        let mut state = self.state.borrow_mut();
+        if matches!(*state, ThunkState::InProgress) {
+            *state = ThunkState::Pending(pending);
+        }
+    }
+
     #[inline]
     pub(super) fn get_value(&self) -> Option<ValueData<'p>> {
         match *self.state.borrow() {
@@ -368,6 +378,7 @@ impl GcTrace for ThunkState<'_> {
     }
 }
 
+#[derive(Clone)]
 pub(super) enum PendingThunk<'p> {
     Expr {
         expr: &'p ir::Expr<'p>,
